@@ -18,6 +18,7 @@ type thread struct {
 	done    bool
 	enabled func() bool // nil = runnable
 	what    string
+	parked  bool // inside verifrt.Park
 }
 
 type threadKill struct{}
@@ -35,6 +36,7 @@ type schedState struct {
 	trace       []int
 	bound       int
 	boundSet    bool
+	syncMapPts  bool // sync.Map operations are scheduling points (verifrt.SyncMapPoints)
 }
 
 func (in *Interp) sched() *schedState {
@@ -238,6 +240,28 @@ func (in *Interp) block(cond func() bool, what string) {
 		// woken although not enabled: scheduler bug
 		panic("thread resumed while blocked: " + what)
 	}
+}
+
+// park suspends the current thread until every other thread is finished,
+// blocked or parked too (verifrt.Park).
+func (in *Interp) park() {
+	if len(in.threads) <= 1 {
+		return
+	}
+	me := in.cur
+	me.parked = true
+	in.block(func() bool {
+		for _, t := range in.threads {
+			if t == me || t.done || t.parked {
+				continue
+			}
+			if t.enabled == nil || t.enabled() {
+				return false
+			}
+		}
+		return true
+	}, "park")
+	me.parked = false
 }
 
 // waitAll runs the other threads to completion (harness join).
